@@ -214,3 +214,48 @@ func VerifH_LRUTwoSets() {
 	verifCompare(c, id)
 	symx.Reach("end")
 }
+
+type verifPtrItem struct{ size int }
+
+func (p *verifPtrItem) Size() int { return p.size }
+
+// C04/H1c: a value object whose size has changed since it was stored is stored again under its key (the
+// same pointer): the cache accounts for the size the value has now, exactly as for any other in-place
+// update - Size, Length, Evictions, Keys and the removed list agree with the ideal cache.
+func VerifH_LRUSameObjectResized() {
+	capacity := symx.Int64("capacity")
+	symx.Assume(capacity >= 0 && capacity < 1<<40)
+	c := NewLRUCache(capacity)
+	id := &verifIdeal{capacity: capacity}
+	s1, a, b := symx.Int("otherSize"), symx.Int("sizeBefore"), symx.Int("sizeAfter")
+	symx.Assume(s1 >= 0 && s1 < 1<<30 && a >= 0 && a < 1<<30 && b >= 0 && b < 1<<30)
+	other := &verifPtrItem{size: s1}
+	c.Set(1, other)
+	id.set(1, verifItem{size: s1})
+	p := &verifPtrItem{size: a}
+	c.Set(2, p)
+	id.set(2, verifItem{size: a})
+	p.size = b
+	var removed []Value
+	viaRemoved := symx.Bool("setAndGetRemoved")
+	if viaRemoved {
+		removed = c.SetAndGetRemoved(2, p)
+	} else {
+		c.Set(2, p)
+	}
+	want := id.set(2, verifItem{size: b})
+	if viaRemoved {
+		symx.Assert(len(removed) == len(want), "SetAndGetRemoved: number of removed values")
+	}
+	keys := c.Keys()
+	symx.Assert(len(keys) == len(id.ents) && c.Length() == int64(len(id.ents)), "number of resident entries")
+	for i := range keys {
+		if i < len(id.ents) {
+			symx.Assert(keys[i].(int) == id.ents[i].key, "Keys lists entries from most to least recently used")
+		}
+	}
+	symx.Assert(c.Size() == id.size, "Size is the summed item size")
+	symx.Assert(c.Evictions() == id.evictions, "Evictions agrees with the ideal cache")
+	symx.Assert(c.Size() <= capacity, "summed size never exceeds the capacity after an operation")
+	symx.Reach("end")
+}
